@@ -769,4 +769,24 @@ w("types/tpl-keys.tsx", hdr + "\n".join([
     "const I = defineComponent((p: Record<`${Ten}${Ten}${Ten}${Ten}${Ten}${Ten}${Ten}${Ten}${Ten}`, Ten>) => {});",
     "const J = defineComponent((p: { [K in `${Ten}${Ten}${Ten}${Ten}${Ten}${Ten}${Ten}${Ten}${Ten}`]?: K }) => {});",
 ]), '{"resolveType":true,"optimize":true}')
+
+# ---- U. (after S66, S68; both from agents who were told what the corpus holds) line-ending conventions and control
+# characters written as character references; comments that LEAD a JSX element (on a line of their own)
+ctl = ["&#13;", "&#xD;", "&#10;", "&#9;", "&#0;", "&#127;", "&#x2028;", "&#8203;", "&#xFEFF;", "&#x1F600;"]
+w("unicode/char-refs.jsx", "\n".join(
+    [f"const a{i} = <div>first line{c}</div>;" for i, c in enumerate(ctl)] + [f"const b{i} = <div>{c}after</div>;" for i, c in enumerate(ctl)]
+    + [f"const c{i} = <div>x{c}y\n  z{c}\n{c}w</div>;" for i, c in enumerate(ctl)] + [f"const d{i} = <textarea placeholder=\"type here{c}\" title=\"{c}t\" />;" for i, c in enumerate(ctl)]
+    + [f"const e{i} = <Comp label=\"{c}\">{c}</Comp>;" for i, c in enumerate(ctl)]))
+def rawfile(rel, data):
+    pth = os.path.join(root, rel); os.makedirs(os.path.dirname(pth), exist_ok=True); open(pth, "wb").write(data)
+body = ["const a = <div>", "hello", "</div>;", "const b = <Comp title=\"two", "lines\">", "text", "  indented", "</Comp>;", "const c = <p>x</p>;"]
+rawfile("unicode/eol-cr.jsx", "\r".join(body).encode() + b"\r")
+rawfile("unicode/eol-crlf.jsx", "\r\n".join(body).encode() + b"\r\n")
+rawfile("unicode/eol-mixed.jsx", (body[0] + "\r" + body[1] + "\r\n" + body[2] + "\n" + body[3] + "\r" + body[4] + "\n\r" + body[5] + " " + body[6] + "\r" + body[7] + "\r\n" + body[8]).encode())
+rawfile("unicode/eol-none-at-end.jsx", b"const a = <div>no newline at end</div>;")
+w("../state/comments-before-jsx.jsx", "\n".join([
+    "const a =", "  /*#__PURE__*/", "  <div>{x}</div>;", "const b =", "  // line comment", "  <A>{foo()}</A>;", "foo(", "  /* arg */", "  <B v-show={s}>{bar()}</B>,", "  /** @__PURE__ */", "  <></>", ");",
+    "/* statement starts with JSX */", "<C>{baz()}</C>;", "/*#__PURE__*/", "<D/>;", "const c = <E>{", "  /* child lead */", "  <F>{q()}</F>", "}</E>;", "const d = cond ?", "  /* cons */", "  <G/> :", "  /* alt */", "  <H>{r()}</H>;",
+    "export default (", "  /* @jsx notAPragmaHere */", "  <I a={", "    // attr value lead", "    <J/>", "  } />", ");",
+]))
 print("generated under", os.path.normpath(root))
